@@ -20,6 +20,8 @@ for d in sorted(glob.glob('/verif/seeded/*/')):
         note = f"missed at first; {m['breaks_property']} strengthened, now caught"
     if 'machinery errors' in hist:
         note = "four checks ended as machinery errors at first; the driver now reports escaped subject panics"
+    if 'not reported by C11' in hist:
+        note = "under run() only the order of `remaining` changes, which C11's statement leaves open; the stepping symptoms are C10's and C02's subject and are reported there"
     if 'behaviour-preserving' in hist:
         note = "missed at first; C06 strengthened (caught on the tree it was written for); after fix 757ff1b the change no longer breaks the property"
     rows.append((m['id'], m['breaks_property'], ', '.join(caught) if caught else '-', note))
